@@ -1,2 +1,32 @@
-From Coq Require Import List ZArith.
-From Gosk Require Import Base.Bytes Model.Coff Spec.CoffRead.
+(** C09 - COFF carries the same code and the right symbols (model level).
+    .text sits at offset 140 and is byte-identical to the machine code handed to the writer (which
+    is the flat output: Model/Top.assemble_file passes the same bytes); the GLOBAL records are a
+    permutation of the declared entries, sorted by (undefined last, value) and stable. *)
+From Coq Require Import List ZArith String Bool Permutation Sorting.Sorted.
+From Gosk Require Import Base.Bytes Model.Ast Model.Eval Model.Asm Model.Coff Model.Top Model.Encoder Lemmas.CoffLemmas.
+Import ListNotations.
+Local Open Scope Z_scope.
+
+Theorem C09_text_is_code : forall text srcfile globals symtab,
+  firstn (Datatypes.length text) (skipn 140 (coff_write text srcfile globals symtab)) = text.
+Proof. exact text_at_140. Qed.
+Print Assumptions C09_text_is_code.
+
+Theorem C09_symbols_permutation : forall l, Permutation (sort_stable l) l.
+Proof. exact sort_perm. Qed.
+Print Assumptions C09_symbols_permutation.
+
+Theorem C09_symbols_sorted : forall l, StronglySorted le_ord (sort_stable l).
+Proof. exact sort_sorted. Qed.
+Print Assumptions C09_symbols_sorted.
+
+Theorem C09_sort_stable : forall (p : sym_entry -> bool) l,
+  (forall a b, p a = true -> p b = true -> sym_less a b = false) -> filter p (sort_stable l) = filter p l.
+Proof. exact sort_stable_filter. Qed.
+Print Assumptions C09_sort_stable.
+
+(* the duplicate-GLOBAL finding, on the model: two records for one name *)
+Theorem C09_duplicate_global_refuted :
+  Datatypes.length (fst (global_entries [("_f"%string, 0)] ["_f"; "_f"]%string ([], []))) = 2%nat.
+Proof. reflexivity. Qed.
+Print Assumptions C09_duplicate_global_refuted.
